@@ -776,16 +776,27 @@ func (h *handler) addHandlerContext(messages ...*Message) {
 func (h *handler) handleClose(ctx context.Context) {
 	select {
 	case <-h.routersCloseCh:
-		// for backward compatibility we are closing subscriber
-		h.logger.Debug("Waiting for subscriber to close", nil)
-		if err := h.subscriber.Close(); err != nil {
-			h.logger.Error("Failed to close subscriber", err, nil)
-		}
-		h.logger.Debug("Subscriber closed", nil)
+		h.closeSubscriber()
 	case <-ctx.Done():
 		// we are closing subscriber just when entire router is closed
+		select {
+		case <-h.routersCloseCh:
+			// Run cancels the context right after closing was signaled,
+			// so both channels may be ready at the same time
+			h.closeSubscriber()
+		default:
+		}
 	}
 	h.stopFn()
+}
+
+func (h *handler) closeSubscriber() {
+	// for backward compatibility we are closing subscriber
+	h.logger.Debug("Waiting for subscriber to close", nil)
+	if err := h.subscriber.Close(); err != nil {
+		h.logger.Error("Failed to close subscriber", err, nil)
+	}
+	h.logger.Debug("Subscriber closed", nil)
 }
 
 func (h *handler) handleMessage(msg *Message, handler HandlerFunc) {
